@@ -10,6 +10,9 @@ from concurrent.futures import ProcessPoolExecutor
 
 ROOT = os.path.dirname(os.path.dirname(os.path.abspath(__file__)))
 sys.path.insert(0, ROOT)
+# development aid: when the engine is pointed at another tree (PYVC_REPO), evidence and replays
+# go to a scratch directory so that the committed evidence is only ever written from /repo
+OUT = ROOT if os.environ.get('PYVC_REPO', '/repo') == '/repo' else os.environ.get('PYVC_OUT', '/tmp/pyvc_out')
 
 from pyvc.run import gen_function          # noqa: E402
 from pyvc.solve import solve_all          # noqa: E402
@@ -204,10 +207,10 @@ def main(argv):
             printed.append('# known finding %s no longer reproduces natively (obligation still open): %s' % (kid, out.strip()[:200]))
 
     # ---- replay violations
-    os.makedirs(os.path.join(ROOT, 'replays', pid), exist_ok=True)
+    os.makedirs(os.path.join(OUT, 'replays', pid), exist_ok=True)
     vio_lines = []
     for i, v in enumerate(violations):
-        rp = os.path.join(ROOT, 'replays', pid, 'violation_%d.json' % i)
+        rp = os.path.join(OUT, 'replays', pid, 'violation_%d.json' % i)
         rep = None
         try:
             from pyvc import replay as RP
@@ -250,8 +253,8 @@ def main(argv):
             termination='not verified (partial correctness)',
         ),
         assumptions=assumptions, wall_s=round(wall, 2), violations=len(violations))
-    os.makedirs(os.path.join(ROOT, 'evidence'), exist_ok=True)
-    with open(os.path.join(ROOT, 'evidence', pid + '.json'), 'w') as f:
+    os.makedirs(os.path.join(OUT, 'evidence'), exist_ok=True)
+    with open(os.path.join(OUT, 'evidence', pid + '.json'), 'w') as f:
         json.dump(ev, f, indent=1, default=str)
 
     if rebaseline:
